@@ -527,13 +527,16 @@ pub fn run(tier: Tier, replay: Option<Value>) -> i32 {
         exhaustive(&run, 3, 3, &p3, 0);
         exhaustive(&run, 2, 3, &p3, 1);
         exhaustive(&run, 3, 2, &p2, 2);
+        // the random archives before the large spaces of the thorough tier: on a loaded machine
+        // the soft time budget may cut a large space short (which the evidence then says), it
+        // must never be what leaves the random part unobserved
+        run.par_cases(tier.pick(3000, 50_000), super::threads(), |c| random_case(&run, c));
         if tier == Tier::Thorough {
             exhaustive(&run, 4, 2, &p2, 0);
             exhaustive(&run, 3, 2, &p2, 1);
             exhaustive(&run, 3, 3, &p3, 2);
             exhaustive(&run, 3, 4, &p4, 0);
         }
-        run.par_cases(tier.pick(3000, 50_000), super::threads(), |c| random_case(&run, c));
     });
     let exhaustive_ok = run.counter("exhaustive_spaces_cut_short") == 0;
     run.finish(
